@@ -805,6 +805,19 @@ def sync_check(prop, tier, replay):
             continue
         paths.append({"devices": devices, "client_backend": "fs", "server_backend": "fs",
                       "settled": settled, "steps": steps})
+    if tier != "quick" and prop in ("C04", "C05"):
+        # three devices: behaviours by simulation only (the exhaustive check above is for two)
+        edges3 = []
+        cfg = sync_cfg(wd, "sim3", dict(base, Devices='{"a", "b", "c"}', Deviations=dev_set(devs_on),
+                                        EmitEdges="TRUE", ScanLimit="32"), invariants=False, properties=False)
+        vlib.run_tlc("MC_Sync", cfg, prop + "s3", coverage=False, workers=1, simulate=(400, 70),
+                     timeout_s=600, tag_sink=lambda tag, obj: edges3.append(obj) if tag == "EDGE" else None)
+        if edges3:
+            for b in split_behaviours(edges3, json.dumps(edges3[0]["from"], sort_keys=True)):
+                steps, settled = macro_steps(b, k)
+                if steps:
+                    paths.append({"devices": ["a", "b", "c"], "client_backend": "fs", "server_backend": "fs",
+                                  "settled": settled, "steps": steps})
     # alternate backends across behaviours
     combos = [("fs", "fs"), ("db", "db"), ("fs", "db"), ("db", "fs")]
     for i, p in enumerate(paths):
@@ -1104,6 +1117,19 @@ def check_c09(tier, replay):
                   "to": {"log": e["to"]["log"], "srv": e["to"]["srv"], "pc": e["to"]["pc"]}} for e in b]
         paths.append({"devices": devices, "concurrent": True, "client_backend": combos[i % 4][0],
                       "server_backend": combos[i % 4][1], "steps": steps})
+    if tier != "quick":
+        # three devices in flight at once: simulation only
+        edges3 = []
+        cfg = sync_cfg(wd, "sim3", dict(base, Devices='{"a", "b", "c"}', MaxEdits="1", Deviations=dev_set(devs_on),
+                                        EmitEdges="TRUE", ScanLimit="32"), invariants=False, properties=False)
+        vlib.run_tlc("MC_Sync", cfg, prop + "s3", coverage=False, workers=1, simulate=(400, 60),
+                     timeout_s=600, tag_sink=lambda tag, obj: edges3.append(obj) if tag == "EDGE" else None)
+        if edges3:
+            for i, b in enumerate(split_behaviours(edges3, json.dumps(edges3[0]["from"], sort_keys=True))):
+                steps = [{"act": e["act"], "args": e["args"], "res": e["res"], "dev": e.get("dev") or [],
+                          "to": {"log": e["to"]["log"], "srv": e["to"]["srv"], "pc": e["to"]["pc"]}} for e in b]
+                paths.append({"devices": ["a", "b", "c"], "concurrent": True, "client_backend": combos[i % 4][0],
+                              "server_backend": combos[i % 4][1], "steps": steps})
     chunks = 12
     files = [open(os.path.join(wd, "paths_%02d.ndjson" % i), "w") for i in range(chunks)]
     for i, p in enumerate(paths):
